@@ -16,9 +16,13 @@ def run(rep):
     f2(rep, w)
     f3(rep, w)
     f4(rep, w)
+    f5(rep, w)
     import c06
     c06.s5(rep, w)   # a yield / switch must not close the suspended fiber's upvalues (its slots stay live)
     c06.s6(rep, w)   # a finishing fiber closes the upvalues of its body frame before the frame goes
+    c06.s1(rep, w)   # ... and the closer itself is unconditional
+    import c08
+    c08.x3(rep, w)   # a finishing fiber drops its own handlers, not those of the fiber it returns to
 
 
 def value_key(paths):
@@ -211,6 +215,7 @@ def f2(rep, w):
         f = w.require_fn(VM + nm, 'C09')
         org = origins(f)
         saves = []
+        wrong_frame = []
         for bi in f.normal_blocks():
             for s in f.blocks[bi]['s']:
                 d = s.get('d')
@@ -219,15 +224,21 @@ def f2(rep, w):
                 last = d['p'][-1]
                 if isinstance(last, dict) and last.get('n') == 'ip' and c01.base_type_before_last(f, d) == 'yarel::object::CallFrame':
                     if s['r'].get('rv') == 'use' and 'ip' in operand_fields(f, org, s['r']['o']):
-                        saves.append(bi)
+                        # ... into the *running* frame (the innermost one), not some other element of the frame list
+                        roots = {q[0][2] for q in org.get(d['l'], ()) if q[0][0] == 'call'}
+                        toks = {tk for q in org.get(d['l'], ()) for tk in q[1:]}
+                        if any(x.endswith('current_frame_mut') or x.endswith('::last_mut') for x in roots) or '@current_frame_mut' in toks or '@last_mut' in toks:
+                            saves.append(bi)
+                        else:
+                            wrong_frame.append(bi)
         sw = [bi for bi, t in f.calls() if strip_generics(callee_name(t) or '') in switch]
         if nm != 'call_closure':
             sw = [e['block'] for e in fiber_events(w, f) if e['kind'] == 'F']
         if not sw:
             raise Broken('C09', 'anchor', '%s: frame/fiber switch not found' % nm)
         ok = bool(saves) and all(any(b in f.reachable_blocks(s) and s not in f.reachable_blocks(b) for s in saves) for b in sw)
-        r.check(ok, nm, 'the running frame\'s ip (Vm.ip) is not stored into its CallFrame before %s switches frames: when the frame is resumed it '
-                'restarts from a stale address' % nm, f.loc())
+        r.check(ok and not wrong_frame, nm, 'the running frame\'s ip (Vm.ip) is not stored into its own CallFrame (the innermost one) before %s switches frames: when the frame is '
+                'resumed it restarts from a stale address%s' % (nm, ' (the ip is stored into another element of the frame list)' if wrong_frame else ''), f.loc())
     # load_frame is the only function that loads ip/chunk/module from a frame
     for fld in ('active_chunk', 'active_module'):
         ws = sorted({g.path for (g, sp, k) in c01.field_writers(w, 'yarel::vm::Vm', fld) if k == 'store'})
@@ -299,3 +310,20 @@ def f4(rep, w):
         bad = [(wb, fld, e) for (wb, fld) in writes for e in errs if e in f.reachable_blocks(wb) and e != wb]
         r.check(not bad, nm, 'a write to fiber link state (%s) can be followed by an error return: the reported error leaves a fiber pointing at '
                 'the wrong caller / frame' % sorted({b[1] for b in bad}), f.loc())
+
+
+def f5(rep, w):
+    """a fiber that cannot run again is reported as finished whatever else is left in it: load_fiber looks at has_finished() before it
+    looks at the caller link (a fiber killed by an uncaught error keeps a stale link; X3's exemption for cleared frame lists rests on
+    this guard being the first)"""
+    r = rep.rule('F5', 'load_fiber refuses a finished fiber before it consults any other state of that fiber', floor=1)
+    f = w.require_fn(VM + 'load_fiber', 'C09')
+    org = origins(f)
+    dom = f.dominators()
+    fin = [bi for bi, t in f.calls() if callee_name(t) == 'yarel::object::ObjFiber::has_finished']
+    link = [bi for bi, t in f.calls() if strip_generics(callee_name(t) or '') in ('std::option::Option::is_some', 'std::option::Option::is_none') and t['args'] and
+            'caller' in operand_fields(f, org, t['args'][0])]
+    if not fin or not link:
+        raise Broken('C09', 'anchor', 'load_fiber: has_finished / caller tests not found')
+    r.check(all(any(h in dom.get(l_, ()) for h in fin) for l_ in link), 'load_fiber: has_finished() is tested before the caller link',
+            'load_fiber tests the caller link before has_finished(): a fiber that died with an uncaught error (frames cleared, link left behind) is reported as "already called" although it has finished', f.loc())
